@@ -222,6 +222,8 @@ pub enum Op {
     BulkPutString(Vec<(B, B)>),
     PutFromIter(Vec<(B, B)>),
     GetString(B),
+    /// `FileDbMap::is_dirty()`
+    IsDirty,
     /// the `_string` variants of the API (values pass through `String::from_utf8_lossy` on the way out)
     PutString(B, B),
     DelString(B),
@@ -291,6 +293,7 @@ impl Op {
             Op::BulkPutString(kvs) => format!("bulk_put_string {}", dash(kvs_tok(kvs))),
             Op::PutFromIter(kvs) => format!("put_from_iter {}", dash(kvs_tok(kvs))),
             Op::GetString(k) => format!("get_string {}", k.tok()),
+            Op::IsDirty => "is_dirty".into(),
             Op::PutString(k, v) => format!("put_string {} {}", k.tok(), v.tok()),
             Op::DelString(k) => format!("del_string {}", k.tok()),
             Op::BulkGetString(ks) => format!("bulk_get_string {}", dash(ks_tok(ks))),
@@ -324,6 +327,7 @@ impl Op {
             ("bulk_put_string", 2) => Op::BulkPutString(parse_kvs(t[1])?),
             ("put_from_iter", 2) => Op::PutFromIter(parse_kvs(t[1])?),
             ("get_string", 2) => Op::GetString(B::parse(t[1])?),
+            ("is_dirty", 1) => Op::IsDirty,
             ("put_string", 3) => Op::PutString(B::parse(t[1])?, B::parse(t[2])?),
             ("del_string", 2) => Op::DelString(B::parse(t[1])?),
             ("bulk_get_string", 2) => Op::BulkGetString(parse_ks(t[1])?),
@@ -375,6 +379,7 @@ impl Op {
             Op::BulkPutString(..) => "bulk_put_string",
             Op::PutFromIter(..) => "put_from_iter",
             Op::GetString(..) => "get_string",
+            Op::IsDirty => "is_dirty",
             Op::PutString(..) => "put_string",
             Op::DelString(..) => "del_string",
             Op::BulkGetString(..) => "bulk_get_string",
